@@ -149,6 +149,20 @@ def check_set(points):
             back = L.get_traps_from_coordinates(*[ref[t] for t in sel])
             if list(back) != list(sel):
                 out.append((f"C19:traps-from-coordinates:{tag}", f"{sel} -> {back}"))
+            # the register constructor given layout= and trap_ids= directly: every ordering of the RIGHT set of ids that is not the
+            # qubits' own pairing must be refused (or the register must carry the ids its qubits really sit on)
+            if k >= 2:
+                qd = {q: reg.qubits[q] for q in qids}
+                for perm_ids in itertools.permutations(sel):
+                    try:
+                        r3 = type(reg)(qd, layout=L, trap_ids=perm_ids)
+                    except (ValueError, TypeError):
+                        if perm_ids == tuple(sel):
+                            out.append((f"C19:register-with-its-own-trap-ids-refused:{tag}", f"{sel}"))
+                        continue
+                    carried = tuple(r3._layout_info.trap_ids) if getattr(r3, "_layout_info", None) is not None else None
+                    if carried != tuple(sel):
+                        out.append((f"C19:register-accepted-with-trap-ids-it-does-not-sit-on:{tag}", f"qubits on traps {sel}, constructed with trap_ids={perm_ids}, carries {carried}"))
             # raw (unrounded) coordinates must resolve to the same traps
             raw_by_ref = {tuple(round(v, 6) + 0.0 for v in p): p for p in points}
             back2 = L.get_traps_from_coordinates(*[raw_by_ref[ref[t]] for t in sel])
